@@ -76,6 +76,26 @@ def directed(rng, tier):
         for k, n in enumerate(sizes):
             hs.round([(3, hs.publish(100, bytes((7 * k + j) % 251 for j in range(n)), src_mod=32))], w, 1 + k)
         out.append(hs)
+    # the application stops the manager from ANOTHER thread (MessageManager.close()) while the manager thread is in the
+    # middle of a frame - between the header and the payload, or before the header: close() only asks the loop to end;
+    # whatever it does must not put bytes of its own into the frame being written (implementation only: the model has
+    # one thread)
+    for lvl in (20, 10, 60):
+        for at in (1, 2, 3, 4):
+            hs = C.History(loglevel=lvl, tag="closed-from-another-thread")
+            hs.impl_only = True
+            for _ in range(3):
+                hs.round([], [], 0, accept=True)
+            w = [1, 2, 3]
+            hs.round([(1, hs.connect_v2(logger=1, mod_id=30))], w, 0)
+            hs.round([(1, hs.sub("sub", C.ALL))], w, 0)
+            hs.round([(2, hs.connect_v1(src_mod=31)), (3, hs.connect_v1(src_mod=32))], w, 0)
+            hs.round([(2, hs.sub("sub", 100))], w, 0)
+            hs.round([(2, hs.sub("sub", C.MT["RTMA_LOG_INFO"]))], w, 0)
+            hs.close_at(2, at)
+            hs.round([(3, hs.publish(100, b"A" * 300, src_mod=32))], w, 1)
+            hs.round([(3, hs.publish(100, b"B" * 300, src_mod=32))], w, 2)
+            out.append(hs)
     return out
 
 
